@@ -24,7 +24,7 @@ pub fn check(tier: Tier) -> Check {
         deciding: vec!["C06"],
         streams: vec![
             Stream::new("token-module", tier.pick(32, 320), c0607::token_module),
-            Stream::new("handler", tier.pick(96, 3200), |ctx, idx| c0607::handler_history(ctx, idx, "C06")),
+            Stream::new("handler", tier.pick(96, 3200), |ctx, idx| c0607::handler_history(ctx, idx, "C06")).budget(tier.pick(900.0, 3000.0), tier.pick(96, 1600)),
         ],
         require: vec![
             ("checkin_MustAccept", tier.pick(50_000, 5_000_000)),
